@@ -194,7 +194,7 @@ func (x *executor) checkStable(task, opIdx int, inFlight bool) {
 			continue
 		}
 		if inFlight {
-			if h.kind == "ast" || h.kind == "values" {
+			if h.kind == "ast" || h.kind == "values" || h.kind == "deref" {
 				continue
 			}
 		}
